@@ -216,12 +216,12 @@ def bnaf(ctx):
                        note="minus the forward log-det at the point the inverter returned")
 
 
-@family("bnaf/logmatmulexp", ["C02"])
+@family("bnaf/logmatmulexp", ["C02", "C18"])
 def logmatmulexp_contract(ctx):
     """entry (i, j) of logmatmulexp(x, y) is log sum_k exp(x[i,k]) * exp(y[k,j]); the row / column shifts cancel.
     The sum over k is an uninterpreted linear functional: SUM_k(a * t_k) == a * SUM_k(t_k) for a independent of k (T1)."""
     it = ctx.interp
-    props = ["C02"]
+    props = ["C02", "C18"]  # C18: the log is applied to a sum of products of exponentials (cut sum_positive): finite value and gradient
     fnq = f"{Q}.logmatmulexp"
     exp, log = UF["exp"], UF["log"]
     X = z3.Function("x", I, I, R)
